@@ -395,12 +395,8 @@ func verifC36CheckDecodeIndex(in []byte, maxLength int) {
 		idx, rest, err = h.DecodeIndex(in, maxLength)
 		verifAllocBudget(1 << 40)
 	} else {
-		// Native replay: measure the real allocation. Counts above 2^20 (8 MiB of ints) up
-		// to the makeslice limit are not executed natively (the process would be killed);
-		// the requested size is reported instead. Above the limit the real call panics.
-		if res == verifC36CountTooLarge && cnt > 1<<20 && cnt <= 1<<44 {
-			verifFail("allocation budget exceeded")
-		}
+		// Native replay: measure the real allocation (since fix f71316c a count larger than the
+		// remaining input is refused before anything is allocated, so every input is safe to run).
 		got := verifC36Measure(func() { idx, rest, err = h.DecodeIndex(in, maxLength) })
 		verifAssert(got <= budget, "allocation budget exceeded")
 	}
